@@ -28,6 +28,18 @@ theorem ctrl_forwarders_resolve :
     (CtrlSM.forwarders.all fun f => f.2.all fun row => (lookup ctrl row.2.2).isSome) = true ∧
     (CtrlSM.wiring.all fun w => CtrlSM.forwarders.any fun f => f.1 == w.2.2) = true := by decide +kernel
 
+/-- the generated method bodies (`Gen.CtrlMethods`): every method the model calls exists; every `perform` statement names an existing
+transition; the two methods the probe handler calls are exactly one `perform` of the transition of the same name; and the
+(method, transition) pairs agree with `Gen.CtrlSM.methods` -/
+theorem ctrl_methods_resolve :
+    (["start", "switch_online", "switch_offline", "switch_online_local", "switch_online_remote", "remote_offline", "remote_online",
+      "attempt_online_success", "attempt_online_fail_host_offline"].all fun m => CtrlMethods.methods.any fun r => r.1 == m) = true ∧
+    (CtrlMethods.methods.all fun r => r.2.all fun st => st.1 == "assign" || (st.1 == "perform" && (lookup ctrl st.2.1).isSome)) = true ∧
+    (["attempt_online_success", "attempt_online_fail_host_offline"].all fun m =>
+      CtrlMethods.methods.any fun r => r.1 == m && r.2 == [("perform", m, "")]) = true ∧
+    (CtrlSM.methods.all fun mt => CtrlMethods.methods.any fun r => r.1 == mt.1 && r.2.any fun st => st.1 == "perform" && st.2.1 == mt.2) = true := by
+  decide +kernel
+
 /-- one (state, transition) pair of a machine whose handlers request nothing: rejected without change, or performed to the
 destination with exactly the prescribed flags and events -/
 def checkNoH (m : MDef) (c : Nat) (t : String) : Bool :=
